@@ -220,6 +220,70 @@ func declare(v interface{}) {
 	declaredTypes[strings.Join(descOf(t), " ")] = t
 }
 
+// otherEntryPoints re-encodes v through MarshalTo / MarshalBinaryLST / NewBinaryEncoderLST and compares what comes
+// back; "" when they agree with the primary result.
+func otherEntryPoints(binary bool, v interface{}, primary []byte, ty reflect.Type, want string) (why string) {
+	defer func() {
+		if r := recover(); r != nil {
+			why = "panic"
+		}
+	}()
+	back := func(b []byte) string {
+		tg := reflect.New(ty)
+		if err := ion.Unmarshal(b, tg.Interface()); err != nil {
+			return "err"
+		}
+		return showResult(tg.Elem())
+	}
+	if !binary {
+		var buf bytes.Buffer
+		w := ion.NewTextWriterOpts(&buf, ion.TextWriterQuietFinish)
+		if err := ion.MarshalTo(w, v); err != nil {
+			return "MarshalTo-err"
+		}
+		if err := w.Finish(); err != nil {
+			return "MarshalTo-finish-err"
+		}
+		if got := back(buf.Bytes()); got != want {
+			return "MarshalTo"
+		}
+		return ""
+	}
+	// the local symbol table of the primary output, as the fixed table
+	r := ion.NewReaderBytes(primary)
+	r.Next()
+	st := r.SymbolTable()
+	if st == nil || fmt.Sprintf("%T", st) != "*ion.lst" {
+		// no local symbol table in the primary output (the Reader then answers with the shared system table, which is
+		// not a fixed LOCAL table: NewBinaryWriterLST would write it out as a $ion_shared_symbol_table value)
+		return ""
+	}
+	for _, s := range st.Symbols() {
+		if s == "" {
+			return "" // a fixed table never finds the empty symbol (C09 known finding: "" is not indexed)
+		}
+	}
+	b2, err := ion.MarshalBinaryLST(v, st)
+	if err != nil {
+		return "MarshalBinaryLST-err"
+	}
+	if got := back(b2); got != want {
+		return "MarshalBinaryLST"
+	}
+	var buf bytes.Buffer
+	enc := ion.NewBinaryEncoderLST(&buf, st)
+	if err := enc.Encode(v); err != nil {
+		return "EncoderLST-err"
+	}
+	if err := enc.Finish(); err != nil {
+		return "EncoderLST-finish-err"
+	}
+	if got := back(buf.Bytes()); got != want { // not compared byte for byte: binary map order is not fixed
+		return "EncoderLST"
+	}
+	return ""
+}
+
 func init() {
 	for _, v := range []interface{}{DRenamed{}, DOmitInts{}, DOmitColl{}, DHints{}, DAnnInt{}, DAnnIface{}, DAnnStr{},
 		DAnnOnly{}, DAnnList{}, DAnnStruct{}, DInner{}, dinner{}, DEmbed{}, DEmbedPtr{}, DEmbedUnexp{}, DEmbedUnexpPtr{},
@@ -1180,7 +1244,13 @@ func init() {
 		if err := ion.Unmarshal(b, target.Interface()); err != nil {
 			return "err"
 		}
-		return showResult(target.Elem())
+		res := showResult(target.Elem())
+		// the other entry points of the same encoder must agree with the one just used (an answer the model never gives
+		// otherwise): MarshalTo on an own Writer, an Encoder with a fixed table holding the symbols the value needs
+		if why := otherEntryPoints(a[0] == "b", topValue(v), b, target.Type().Elem(), res); why != "" {
+			return res + " entrypoints-disagree:" + why
+		}
+		return res
 	})
 	// unmarshal <t|b> T <ion value tokens>
 	register("unmarshal", func(a []string) string {
